@@ -15,5 +15,5 @@ for sid in sorted(os.listdir(src)):
     # demos were written to run from the worktree root with sys.path.insert(0, '.')
     shutil.copy(os.path.join(d, 'demo.py'), t)
     summary = open(os.path.join(d, 'summary.txt')).read() if os.path.exists(os.path.join(d, 'summary.txt')) else ''
-    json.dump({'id': sid, 'property': sid.split('_')[0], 'round': {'3': 2, '4': 2, '5': 3, '6': 3, '7': 4, '8': 4}.get(sid[-1], 1), 'author': 'independent sub-agent given only the property text and a scratch worktree', 'summary': summary}, open(os.path.join(t, 'meta.json'), 'w'), indent=1)
+    json.dump({'id': sid, 'property': sid.split('_')[0], 'round': (int(sid.split('_')[1]) + 1) // 2, 'author': 'independent sub-agent given only the property text and a scratch worktree', 'summary': summary}, open(os.path.join(t, 'meta.json'), 'w'), indent=1)
     print(sid, 'imported')
